@@ -500,7 +500,7 @@ func concurrentUDPMode(c *Ctx, r *Rng, workers, perWorker int, storm bool) {
 					if len(d) >= 8 && binary.BigEndian.Uint32(d[:4]) == 3 {
 						msg := strings.TrimSuffix(string(d[8:]), "\x00")
 						cls := "other"
-						if clientErrLiterals[msg] {
+						if isClientMsgUDP(msg) {
 							cls = "client"
 						}
 						obs = "error tx=" + hx(d[4:8]) + " cls=" + cls + " nul=" + b01(strings.HasSuffix(string(d[8:]), "\x00"))
